@@ -324,7 +324,7 @@ def history(bib, rnd, depth, cid):
 def binding_selftest(chk, cases):
     """The trace specification must REJECT a recording with one corrupted field (otherwise it binds nothing)."""
     import copy
-    src = next((c for c in cases if len(c["ev"]) >= 3 and c["ev"][2]["v"]["blocks"]), None)
+    src = next((c for c in cases if len(c["ev"]) >= 3 and all("v" in e for e in c["ev"][:3]) and c["ev"][2]["v"]["blocks"]), None)
     if src is None:
         return
     bad = []
@@ -357,18 +357,18 @@ def t3(chk, bib, ncases, depths):
             c = byid[n["id"]]
             sig = {"id": {"AddRaiseAfterInsert": "C08-add-raise-after-insert", "RemovePartial": "C08-remove-partial"}[n["deviation"]]}
             ev = c["ev"][n["at"] - 1]
-            chk.mismatch(n["clause"], {"kind": "history", "ev": c["ev"][:n["at"]]}, {"out": ev["out"], "v": ev["v"]},
+            chk.mismatch(n["clause"], {"kind": "history", "ev": c["ev"][:n["at"]]}, {"out": ev["out"], "v": ev.get("v", "<not observed>")},
                          "ideal action of Library.tla (unchanged state on ValueError)", signature=sig,
                          spec={"module": "Trace_Library", "deviation": n["deviation"]}, kind="library_history")
     for rj in verdict.rejects:
         c = byid[rj["reject"]]
         ev = c["ev"][rj["at"] - 1]
-        chk.mismatch(rj["clause"], {"kind": "history", "ev": c["ev"][:rj["at"]]}, {"out": ev["out"], "v": ev["v"]},
+        chk.mismatch(rj["clause"], {"kind": "history", "ev": c["ev"][:rj["at"]]}, {"out": ev["out"], "v": ev.get("v", "<not observed>")},
                      rj["expected"], spec={"module": "Trace_Library", "operator": "Next"}, kind="library_history")
     if cases:
         c = cases[0]
         chk.sample({"history_prefix": [{k: v for k, v in e.items() if k != "v"} for e in c["ev"][:4]],
-                    "blocks_after": c["ev"][3]["v"]["blocks"] if len(c["ev"]) > 3 else None})
+                    "blocks_after": c["ev"][3].get("v", {}).get("blocks") if len(c["ev"]) > 3 else None})
 
 
 def t3_repo_tests(chk):
@@ -400,13 +400,13 @@ def t3_repo_tests(chk):
             c = byid[n["id"]]
             sig = {"id": {"AddRaiseAfterInsert": "C08-add-raise-after-insert", "RemovePartial": "C08-remove-partial"}[n["deviation"]]}
             ev = c["ev"][n["at"] - 1]
-            chk.mismatch(n["clause"], {"kind": "suite_history", "ev": c["ev"][:n["at"]]}, {"out": ev["out"], "v": ev["v"]},
+            chk.mismatch(n["clause"], {"kind": "suite_history", "ev": c["ev"][:n["at"]]}, {"out": ev["out"], "v": ev.get("v", "<not observed>")},
                          "ideal action of Library.tla (unchanged state on ValueError)", signature=sig, kind="library_history")
     for rj in verdict.rejects:
         c = byid[rj["reject"]]
         ev = c["ev"][rj["at"] - 1]
         chk.mismatch(rj["clause"], {"kind": "suite_history", "ev": [{k: v for k, v in e.items() if k != "v"} for e in c["ev"][:rj["at"]]]},
-                     {"out": ev["out"], "v": ev["v"]}, rj["expected"], spec={"module": "Trace_Library"}, kind="library_history")
+                     {"out": ev["out"], "v": ev.get("v", "<not observed>")}, rj["expected"], spec={"module": "Trace_Library"}, kind="library_history")
     chk.traces += len(cases) - len(verdict.rejects)
     chk.evaluations += len(cases)
     chk.clause("T3.repository_test_suite_events", sum(len(c["ev"]) for c in cases))
